@@ -44,6 +44,21 @@ def octOrHex (cs : List Char) : Bool :=
 def suffixName : Suffix → String
   | .none => "none" | .u => "u" | .l => "l" | .lu => "lu" | .ll => "ll" | .llu => "llu"
 
+/-- an integer constant on a configured platform: `<model with the platform's table> <specification on the platform>` -/
+def pconstLine (p : Platform) (cs : List Char) : String :=
+  let fl := scanNum cs
+  let sfx := intSuffix fl
+  let v := stoull0 cs
+  let oh := octOrHex cs
+  let spec := match firstFit p v (table641 oh sfx) with
+    | some k => bkName k
+    | none => "-"
+  s!"{bkName (intConstTypeM (maxVal p) oh sfx v)} {spec}"
+
+def platOf : String → Option Platform
+  | "lp64" => some lp64 | "ilp32" => some ilp32 | "ip16" => some ip16
+  | _ => none
+
 def constLine (cs : List Char) : String :=
   if cs.any (fun c => c == '\'') then
     s!"{bkName (charConstType cs)} -"
@@ -79,6 +94,9 @@ def handle (line : String) : String :=
   | ["asg", o, l, r] => match opOf o, bkOf l, bkOf r with
     | some o, some l, some r => s!"{showO (assignType o l r)} {showO (assignSpec o l r)}"
     | _, _, _ => "bad-case"
+  | ["pconst", pl, hx] => match platOf pl, Driver.TextTableDrv.unhex hx.toList with
+    | some p, some bytes => pconstLine p (bytes.map (fun b => Char.ofNat b.toNat))
+    | _, _ => "bad-case"
   | ["const", hx] => match Driver.TextTableDrv.unhex hx.toList with
     | some bytes => constLine (bytes.map (fun b => Char.ofNat b.toNat))
     | none => "bad-case"
